@@ -70,6 +70,10 @@ chk("C15", "fault_enumeration",
     "Seeded lifecycle histories on a store with a few-KiB fraction size, a retention limit of 4-8 fractions and a 3 ms maintenance loop (dozens of rotations, background seals and retention deletions per round), crashed at the k-th hit of lifecycle hooks (between the two file creations of a new active fraction, rotation, every rename/remove of sealed and active deletion, retention shift, .frac-cache temp written/renamed, seal publication, release), followed by power-loss variants (unsynced .docs/.meta tails truncated; .frac-cache stale, truncated, corrupt or deleted). A separate verification process with an idle maintenance loop checks after every restart: the store comes up; each bulk wholly served or wholly gone and byte-identical; bulks of one fraction share their fate; served acknowledged bulks form a suffix of the ingestion order; nothing seen gone reappears; fraction lists sampled while running are suffixes of the creation order.",
     "TotalSize >= 4 x FracSize and paced ingestion (retiring the fraction being written is outside the statement); which hook hit a crash lands on is scheduler dependent.", "crash-point fault injection over lifecycle histories with whole-or-gone / oldest-first oracles", "DESIGN.md 2/C15")
 
+chk("C19", "fault_enumeration",
+    "Store handlers with restart injection: per corpus (group values with '|', quotes, unicode; negative and fractional numbers) over 2-6 fractions a dry run counts the durable writes of one asynchronous search; then, from pristine copies in fresh processes, the store crashes after the k-th durable write, rename or sync for every k and before/after the request is marked done; after the restart the search is polled until done and its IDs, histogram and per-bin aggregation summaries are compared with the synchronous search of the restarted store, and the IDs with the model. The proxy library (1-3 shards) and the proxy's public StartAsyncSearch/FetchAsyncSearchResult handlers (vs ComplexSearch and the model) are driven with the same requests without restarts.",
+    "No ingestion between start and finish; a request whose start call had not returned before the crash may be lost (tallied); rendered buckets compared for aggregations without interval only.", "crash-point enumeration over persisted partial results + differential comparison async vs sync vs model", "DESIGN.md 2/C19")
+
 def main():
     claimed = sorted(CHECKS)
     na = [{"property_id": p, "reason": "check not built yet in this session (planned; see DESIGN.md section 2)"} for p in ALL if p not in CHECKS]
